@@ -725,6 +725,24 @@ def probe_self_append(ctx, harness):
                       "(value semantics: it contains a copy of its old value)", txt, signature="self-append")
 
 
+def model_counters(ctx, hs, cap=12000):
+    """coverage counters read off the model: the driver replays the walk of every `mut` with the model's own functions and
+    records each copy-on-write decision (`stats` line, answered by the driver only)"""
+    sample = hs if len(hs) <= cap else hs[::max(1, len(hs) // cap)]
+    lines, _ = C.flatten(sample)
+    out, rc, err = C.run_lines(C.driver_path(DRIVER), lines + ["reset", "stats"], timeout=600)
+    last = out[-1] if out else ""
+    if rc != 0 or not last.startswith("stats "):
+        ctx.notes.append(f"model counters unavailable (rc={rc}): {err[-200:]}")
+        return
+    cnt = {k: int(v) for k, v in (t.split("=") for t in last.split()[1:])}
+    cnt["histories_sampled"] = len(sample)
+    ctx.cov["model_counters"] = cnt
+    ctx.cov["branch_hits"] = {k: cnt[k] for k in cnt if k.startswith(("acc_", "set_"))}
+    if cnt.get("faults"):
+        ctx.broken.append(f"the model faulted on {cnt['faults']} valid line(s)")
+
+
 def check(ctx):
     ctx.assumptions += ASSUMPTIONS
     proof_ok = C.proof_stage(ctx, PROPS, [DRIVER], leanchecker=(ctx.tier == "thorough"))
@@ -761,6 +779,7 @@ def check(ctx):
         ctx.log(f"{len(hs)} histories, {ctx.cov['evaluations']} op lines, {len(diffs)} disagreement(s)")
         C.report_diffs(ctx, diffs, harness, C.driver_path(DRIVER), reference, line_eq, "variant-ops")
         probe_self_append(ctx, harness)
+        model_counters(ctx, hs)
     finally:
         try:
             harness.unlink()
